@@ -286,6 +286,14 @@ class ISD(model.Document):
       for region in cached_doc.iter_regions():
         compute_sig_times(interval_cache, content_interval, s_times, region, 0, None)
 
+      # in the absence of regions, the default region is always active and paints the initial background color, if any
+
+      if len(doc_regions) == 0:
+        initial_bg_color = doc.get_initial_value(styles.StyleProperties.BackgroundColor)
+        if initial_bg_color is not None and initial_bg_color.components[3] != 0:
+          content_interval[0] = 0
+          content_interval[1] = None
+
       # add significant times for body and its descendents
 
       if cached_doc.get_body() is not None:
